@@ -141,6 +141,9 @@ type HarnessSpec struct {
 	Deadline time.Duration
 	HuntMode bool
 	MapOrder string // "", or "rotate:<k>:<r>" (k-th range statement rotated by r)
+	// MaxViolations stops the exploration once that many violations were
+	// found (the run is then not exhaustive). 0 = 40.
+	MaxViolations int
 	LogSMT   string
 }
 
@@ -423,6 +426,9 @@ func (e *Engine) Run(spec HarnessSpec) *HarnessResult {
 		spec.Deadline = 30 * time.Minute
 	}
 	deadline := t0.Add(spec.Deadline)
+	if spec.MaxViolations <= 0 {
+		spec.MaxViolations = 40
+	}
 
 	var mu sync.Mutex
 	cond := sync.NewCond(&mu)
@@ -463,7 +469,7 @@ func (e *Engine) Run(spec HarnessSpec) *HarnessResult {
 					cond.Broadcast()
 					return
 				}
-				if started >= spec.MaxPaths || time.Now().After(deadline) {
+				if started >= spec.MaxPaths || time.Now().After(deadline) || len(hr.Violations) >= spec.MaxViolations {
 					stop = true
 					mu.Unlock()
 					cond.Broadcast()
